@@ -99,7 +99,7 @@ def coll_source(body, op, depth=0, closure_env=None):
       ('field', adt, field)                        a plain collection field (e.g. the reaction command buffer)
     closure_env: {param local: source} bindings when evaluating a combinator closure body."""
     p = op_place(op)
-    if p is None or depth > 24:
+    if p is None or depth > 90:
         return None
     return _place_source(body, p, depth, closure_env or {})
 
@@ -137,7 +137,7 @@ def _place_source(body, p, depth, env):
 def _local_source(body, l, depth, env):
     if l in env:
         return env[l]
-    if depth > 24:
+    if depth > 90:
         return None
     res = set()
     for d in body.defs.get(l, []):
